@@ -93,10 +93,16 @@ inductive Res
   | panic
   deriving DecidableEq, Repr
 
+/-- `n ≤ bs.length`, looking at no more than `n` cells (the driver runs this on MiB streams). -/
+def hasAtLeast : Nat → Bytes → Bool
+  | 0, _ => true
+  | _ + 1, [] => false
+  | n + 1, _ :: t => hasAtLeast n t
+
 /-- `io.ReadFull(r, make([]byte, n))` on a reader holding `bs`: all `n` bytes, or `io.EOF` when
 nothing could be read, or `io.ErrUnexpectedEOF` when fewer than `n`. `n = 0` always succeeds. -/
 def readFull (n : Nat) (bs : Bytes) : Except RErr (Bytes × Bytes) :=
-  if n ≤ bs.length then .ok (bs.take n, bs.drop n)
+  if hasAtLeast n bs then .ok (bs.take n, bs.drop n)
   else if bs.isEmpty then .error .eof
   else .error .unexpectedEOF
 
